@@ -294,6 +294,9 @@ class PointTable:
         self.shared_attrs = frozenset(shared_attrs)
         self.shared_statements: dict[str, int] = {}     # "file:function+rel" -> number of lines of the span
         self.files: set[str] = set()
+        # statement-level preemption everywhere (`Run(wide_all=True)`): file -> number of executions of one line that
+        # are scheduling points; filled by the caller from what it DISCOVERED (`add_wide_files`), not from a list
+        self.wide_files: dict[str, int] = {}
         self.missing: list[str] = []
         self.ambiguous: list[str] = []
         found: dict[tuple[str, str], int] = {}
@@ -342,6 +345,13 @@ class PointTable:
     @property
     def complete(self) -> bool:
         return not self.missing and not self.ambiguous
+
+    def add_wide_files(self, paths, unroll: int):
+        """source files in which EVERY line of EVERY function is a preemption point of a thread that runs wide in a
+        `Run(wide_all=True)`; a file registered twice keeps the larger unrolling"""
+        for p in paths:
+            p = str(Path(p).resolve())
+            self.wide_files[p] = max(self.wide_files.get(p, 0), unroll)
 
     def wide_ok(self, path: str) -> bool:
         """wide line tracing covers every traced file whose functions are not restricted (`ONLY_FUNCS`)"""
@@ -405,8 +415,13 @@ class Deadlock(Exception):
     pass
 
 
+# the only places where a thread marked `atomic` parks: its harness points and the entry of a lock-protected section
+ATOMIC_SCHED_KINDS = frozenset({"start", "call", "not_found", "derive", "ctr_enter"})
+
+
 class _TState:
-    __slots__ = ("tid", "sem", "thread", "status", "pending_kind", "pending_lock", "result", "exc", "fn")
+    __slots__ = ("tid", "sem", "thread", "status", "pending_kind", "pending_lock", "result", "exc", "fn",
+                 "pending_hint")
 
     def __init__(self, tid, fn):
         self.tid = tid
@@ -416,21 +431,86 @@ class _TState:
         self.status = "new"          # new | parked | running | done
         self.pending_kind = None
         self.pending_lock = None
+        self.pending_hint = None
         self.result = None
         self.exc = None
+
+
+class WideMonitor:
+    """Line events for the runs with `wide_all=True` through `sys.monitoring` (3.12): LINE events are switched on
+    only for the code objects of `table.wide_files` (+ the lock-protected section), so the rest of the interpreter
+    runs at full speed - `sys.settrace` pays a Python call per function call of the traced thread, which makes a
+    statement-level exploration of a whole request 4-5 times slower.  Code objects are found when they are first
+    entered (PY_START, then disabled for that code object).  `start()` / `stop()` bracket a stage; between runs the
+    callbacks find no current run and return at once."""
+    current: Optional["Run"] = None
+    active = False
+    _tool = None
+    _codes: list = []
+    _files: frozenset = frozenset()
+
+    @classmethod
+    def start(cls, table: "PointTable") -> bool:
+        mon = getattr(sys, "monitoring", None)
+        if mon is None or cls.active:
+            return cls.active
+        for tool in (mon.PROFILER_ID, mon.OPTIMIZER_ID, 3, 4):
+            if mon.get_tool(tool) is None:
+                break
+        else:
+            return False
+        mon.use_tool_id(tool, "c12-wide")
+        cls._tool, cls._codes, cls.active = tool, [], True
+        cls._files = frozenset(table.wide_files) | frozenset(table.files)
+        mon.register_callback(tool, mon.events.PY_START, cls._py_start)
+        mon.register_callback(tool, mon.events.LINE, cls._line)
+        mon.set_events(tool, mon.events.PY_START)
+        mon.restart_events()
+        return True
+
+    @classmethod
+    def stop(cls):
+        if not cls.active:
+            return
+        mon = sys.monitoring
+        mon.set_events(cls._tool, 0)
+        for code in cls._codes:
+            mon.set_local_events(cls._tool, code, 0)
+        mon.register_callback(cls._tool, mon.events.PY_START, None)
+        mon.register_callback(cls._tool, mon.events.LINE, None)
+        mon.free_tool_id(cls._tool)
+        cls._tool, cls._codes, cls.active, cls.current = None, [], False, None
+
+    @classmethod
+    def _py_start(cls, code, _offset):
+        if code.co_filename in cls._files:
+            sys.monitoring.set_local_events(cls._tool, code, sys.monitoring.events.LINE)
+            cls._codes.append(code)
+        return sys.monitoring.DISABLE
+
+    @classmethod
+    def _line(cls, code, line):
+        run = cls.current
+        if run is not None:
+            run._mon_line(code, line)
 
 
 class Run:
     """One controlled execution of `fns` (one function per thread; each receives its `Run` handle and tid)."""
 
     def __init__(self, table: PointTable, namer: Namer, mode: str = "points", step_timeout: float = 5.0,
-                 sched_kinds: Optional[set[str]] = None, shared_points: bool = False):
+                 sched_kinds: Optional[set[str]] = None, shared_points: bool = False, wide_all: bool = False):
         self.table = table
         self.namer = namer
         self.mode = mode
         self.step_timeout = step_timeout
         self.sched_kinds = sched_kinds      # None = every scheduling kind of POINT_SPECS (+ harness points)
         self.shared_points = shared_points  # statements touching the contents of a shared cache are scheduling points
+        self.wide_all = wide_all            # a thread that runs wide yields at every line of `table.wide_files`
+        self.sites: dict[str, int] = {}     # wide_all: "file:function+rel" -> times it was a scheduling point
+        self._chooser = None
+        self._cur_tid: Optional[int] = None
+        self._forced: Optional[int] = None  # a decision already taken (and recorded) by the running thread
         self.actions: list[list] = []       # global action trace
         self.decisions: list[dict] = []     # per scheduling decision: enabled tids, chosen, current before
         self.threads: list[_TState] = []
@@ -441,12 +521,35 @@ class Run:
         self._tls = threading.local()
 
     # ---- called from controlled threads ------------------------------------------------
-    def point(self, kind: str, label_fn: Callable[[], list], lock=None, scheduling: bool = True):
-        """A yield point.  `label_fn()` is evaluated when the thread is granted."""
+    def point(self, kind: str, label_fn: Callable[[], list], lock=None, scheduling: bool = True, hint=None):
+        """A yield point.  `label_fn()` is evaluated when the thread is granted; `hint` names the statement the thread
+        is parked in front of (recorded with a decision that switches away from it)."""
         ts: _TState = self._tls.ts
+        if scheduling and getattr(self._tls, "atomic", False) and kind not in ATOMIC_SCHED_KINDS:
+            scheduling = False
+        if scheduling and (self.sched_kinds is None or kind in self.sched_kinds):
+            if self.wide_all and self._chooser is not None and self._cur_tid == ts.tid \
+                    and not (lock is not None and lock.locked()):
+                # the decision is taken in place (same enabled set, same chooser call as the controller would make;
+                # the controller is blocked and every other controlled thread is parked or done): a thread that is
+                # allowed to continue does not pay two context switches per statement
+                enabled = [o.tid for o in self.threads
+                           if o is ts or (o.status == "parked"
+                                          and not (o.pending_lock is not None and o.pending_lock.locked()))]
+                t = self._chooser(self, enabled, ts.tid)
+                if t not in enabled:
+                    self.diverged = True
+                    t = ts.tid
+                self.decisions.append({"enabled": enabled, "cur": ts.tid, "chosen": t,
+                                       "kind": kind if t == ts.tid else self.threads[t].pending_kind})
+                if t != ts.tid:
+                    self.decisions[-1]["preempted_at"] = hint or kind
+                    self._forced = t
+                scheduling = t != ts.tid
         if scheduling and (self.sched_kinds is None or kind in self.sched_kinds):
             ts.pending_kind = kind
             ts.pending_lock = lock
+            ts.pending_hint = hint
             ts.status = "parked"
             self._ctl.release()
             ts.sem.acquire()
@@ -466,10 +569,23 @@ class Run:
         self._tls.wide = bool(on)
         self._tls.wide_seen = {}
 
+    def atomic(self):
+        """the calling thread is not preempted inside the library: it parks only at its harness points and where it
+        takes a lock (a thread that meets a held lock waits, as it would)"""
+        self._tls.atomic = True
+
     def _tracer_global(self, frame, event, arg):
         if event != "call":
             return None
         fn = frame.f_code.co_filename
+        if getattr(self._tls, "atomic", False):
+            if fn in self.table.files:
+                only = self.table.only_funcs.get(fn)
+                if only is None or frame.f_code.co_name in only:
+                    return self._tracer_local
+            return None
+        if self.wide_all and getattr(self._tls, "wide", False) and fn in self.table.wide_files:
+            return self._tracer_lines
         if fn in self.table.files:
             only = self.table.only_funcs.get(fn)
             if self.mode == "lines":
@@ -526,13 +642,16 @@ class Run:
     def _tracer_lines(self, frame, event, arg):
         if event != "line":
             return self._tracer_lines
-        if getattr(self._tls, "wide", False):
+        hit0 = self.table.by_line.get((frame.f_code.co_filename, frame.f_lineno))
+        if getattr(self._tls, "wide", False) and not (hit0 is not None and hit0[0] == "ctr_enter"):
+            # (the entry of a lock-protected section is always a point: the controller must see the lock)
             # bounded unrolling: the first WIDE_UNROLL executions of a line are scheduling points (the cloning code
             # loops over the whole recipe; a loop over a shared container is met in its first iterations)
             seen = self._tls.wide_seen
             k = (frame.f_code, frame.f_lineno)
             seen[k] = seen.get(k, 0) + 1
-            if seen[k] > WIDE_UNROLL:
+            if seen[k] > (self.table.wide_files.get(frame.f_code.co_filename, WIDE_UNROLL) if self.wide_all
+                          else WIDE_UNROLL):
                 return self._tracer_lines
         sys.settrace(None)
         try:
@@ -542,10 +661,51 @@ class Run:
             if hit is not None and hit[0] == "ctr_enter":
                 lock = self._with_lock_entry(frame)
             rel = frame.f_lineno - code.co_firstlineno
-            self.point("line", lambda: [f"{code.co_name}+{rel}"], lock=lock)
+            if self.wide_all:
+                site = f"{code.co_filename.rsplit('/', 1)[-1]}:{code.co_name}+{rel}"
+                self.sites[site] = self.sites.get(site, 0) + 1
+                self.point("line", lambda: [site], lock=lock, hint=site)
+            else:
+                self.point("line", lambda: [f"{code.co_name}+{rel}"], lock=lock)
         finally:
             sys.settrace(self._tracer_global)
         return self._tracer_lines
+
+    def _mon_line(self, code, line):
+        """`sys.monitoring` LINE event of a `wide_all` run (any thread; only controlled threads react)"""
+        tls = self._tls
+        if getattr(tls, "ts", None) is None or not getattr(tls, "mon", False):
+            return
+        fn = code.co_filename
+        hit = self.table.by_line.get((fn, line))
+        is_lock = hit is not None and hit[0] == "ctr_enter"
+        wide = getattr(tls, "wide", False) and not getattr(tls, "atomic", False)
+        if not wide:
+            if not is_lock:
+                return
+        elif not is_lock:
+            limit = self.table.wide_files.get(fn)
+            if limit is None:
+                return
+            seen = tls.wide_seen
+            k = (code, line)
+            n = seen[k] = seen.get(k, 0) + 1
+            if n > limit:
+                return
+        lock = None
+        if is_lock:
+            frame = sys._getframe(1)
+            while frame is not None and frame.f_code is not code:      # (callback frames sit in between)
+                frame = frame.f_back
+            lock = self._with_lock_entry(frame) if frame is not None else None
+            if lock is None and not wide:
+                return          # the `with` line is reported a second time when the block is left
+        if not wide:
+            self.point("ctr_enter", lambda: None, lock=lock)
+            return
+        site = f"{fn.rsplit('/', 1)[-1]}:{code.co_name}+{line - code.co_firstlineno}"
+        self.sites[site] = self.sites.get(site, 0) + 1
+        self.point("line", lambda: [site], lock=lock, hint=site)
 
     def _tracer_shared_lines(self, frame, event, arg):
         """mode="lines", a function that is not traced line by line: only its shared-access statements yield"""
@@ -566,11 +726,15 @@ class Run:
         self._tls.ts = ts
         try:
             self.point("start", lambda: None)
-            sys.settrace(self._tracer_global)
-            try:
+            if self.wide_all and WideMonitor.active:
+                self._tls.mon = True        # line events arrive through sys.monitoring (`_mon_line`)
                 ts.result = ts.fn(self, ts.tid)
-            finally:
-                sys.settrace(None)
+            else:
+                sys.settrace(self._tracer_global)
+                try:
+                    ts.result = ts.fn(self, ts.tid)
+                finally:
+                    sys.settrace(None)
         except BaseException as e:  # noqa: BLE001  (the outcome of the thread *is* the exception)
             ts.exc = e
         ts.status = "done"
@@ -594,6 +758,9 @@ class Run:
 
     def execute(self, fns: list[Callable], chooser: Callable[["Run", list[int], Optional[int]], int]):
         self.threads = [_TState(i, f) for i, f in enumerate(fns)]
+        self._chooser = chooser
+        if self.wide_all and WideMonitor.active:
+            WideMonitor.current = self
         for ts in self.threads:
             ts.thread = threading.Thread(target=self._body, args=(ts,), daemon=True, name=f"c12-t{ts.tid}")
             ts.thread.start()
@@ -610,18 +777,31 @@ class Run:
                         f"t{ts.tid}:{ts.status}@{ts.pending_kind}" for ts in self.threads)
                     raise Deadlock(self.deadlock)
                 cur_ok = cur if cur in enabled else None
+                if self._forced is not None:
+                    t, self._forced = self._forced, None
+                    cur = self._cur_tid = t
+                    self.threads[t].sem.release()
+                    self._wait(f"thread {t} granted at '{self.threads[t].pending_kind}' did not reach its next point "
+                               f"within {self.step_timeout}s")
+                    continue
                 t = chooser(self, enabled, cur_ok)
                 if t not in enabled:
                     self.diverged = True
                     t = cur_ok if cur_ok is not None else enabled[0]
                 self.decisions.append({"enabled": enabled, "cur": cur_ok, "chosen": t,
                                        "kind": self.threads[t].pending_kind})
-                cur = t
+                if cur_ok is not None and t != cur_ok:
+                    self.decisions[-1]["preempted_at"] = self.threads[cur_ok].pending_hint or \
+                        self.threads[cur_ok].pending_kind
+                cur = self._cur_tid = t
                 self.threads[t].sem.release()
                 self._wait(f"thread {t} granted at '{self.decisions[-1]['kind']}' did not reach its next point "
                            f"within {self.step_timeout}s")
         except Deadlock:
             pass
+        finally:
+            if WideMonitor.current is self:
+                WideMonitor.current = None
         return self
 
     @property
